@@ -1,6 +1,6 @@
 #!/bin/bash
 # Runs every registered check (tier from $1, default quick) and validates the evidence files.
-cd /verif
+cd "$(dirname "$(readlink -f "$0")")/.."
 TIER=${1:-quick}
 RC=0
 for p in C01 C02 C03 C04 C05 C06 C07 C08 C09 C10 C11 C12 C13 C14 C15 C16 C17 C18 C19 C20; do
@@ -15,12 +15,12 @@ python3-vt - <<'PY'
 import json,jsonschema,glob,sys
 sch=json.load(open('/root/.vp/EVIDENCE.schema.json'))
 bad=0
-for f in sorted(glob.glob('/verif/evidence/C*.json')):
+for f in sorted(glob.glob('evidence/C*.json')):
     try:
         jsonschema.validate(json.load(open(f)),sch)
     except Exception as e:
         bad=1; print("INVALID",f,str(e)[:200])
-m=json.load(open('/verif/MANIFEST.json'))
+m=json.load(open('MANIFEST.json'))
 jsonschema.validate(m,json.load(open('/root/.vp/MANIFEST.schema.json')))
 print("evidence + manifest schema:", "FAILED" if bad else "ok")
 PY
